@@ -29,8 +29,9 @@ def run(ctx):
     catp = os.path.join(ctx.workdir, "c03cat.json")
     open(catp, "w").write(D.catalogue_json(cat))
     env = {"C03CAT": catp}
-    jobs = [("MCXzFault", dict(module="XzFault", cfg="MCXzFault.cfg", workers=4, timeout=1500, env=env)),
-            ("GenXzFault", dict(module="XzFault", cfg="GenXzFault.cfg", workers=1, timeout=1500, env=env)),
+    T = "" if quick else "T"
+    jobs = [("MCXzFault", dict(module="XzFault", cfg="MCXzFault%s.cfg" % T, workers=4, timeout=1500, env=env)),
+            ("GenXzFault", dict(module="XzFault", cfg="GenXzFault%s.cfg" % T, workers=1, timeout=1500, env=env)),
             ("MCLzFault", dict(module="LzFault", cfg="MCLzFault.cfg", workers=2, timeout=600)),
             ("GenLzFault", dict(module="LzFault", cfg="GenLzFault.cfg", workers=1, timeout=600))]
     for v in ("no_flags_compare", "no_backward_size", "no_block_padding", "no_index_padding", "no_check_compare"):
